@@ -23,6 +23,7 @@ import (
 	"os"
 	"strconv"
 	"time"
+	_ "time/tzdata" // embedded zone database: $TZ resolves even on hosts without /usr/share/zoneinfo
 
 	"github.com/glowlabs-org/gca-backend/client"
 	"github.com/glowlabs-org/gca-backend/glow"
@@ -242,6 +243,10 @@ type constsOut struct {
 	GenesisTime    int64                 `json:"genesis_time"`
 	DateUnix       int64                 `json:"date_unix"` // time.Date(2023,11,19,0,0,0,0,UTC).Unix()
 	GenesisWeekday string                `json:"genesis_weekday"`
+	TZ             string                `json:"tz"`            // $TZ as seen by the probe
+	ZoneName       string                `json:"zone_name"`     // local zone resolved by the Go runtime
+	ZoneOffsetS    int                   `json:"zone_offset_s"` // its UTC offset now
+	ZoneOffsetGenS int                   `json:"zone_offset_at_genesis_s"`
 	Brackets       int                   `json:"brackets"`
 	BracketsSkew   int                   `json:"brackets_clock_went_backwards"`
 	BracketBad     []bracket             `json:"bracket_bad"`
@@ -259,6 +264,9 @@ func consts(args []string) {
 		Server:         server.VerifConsts(),
 		Client:         client.VerifConsts(),
 	}
+	o.TZ = os.Getenv("TZ")
+	o.ZoneName, o.ZoneOffsetS = time.Now().Zone()
+	_, o.ZoneOffsetGenS = time.Unix(docGenesis, 0).In(time.Local).Zone()
 	for i := 0; i < n; i++ {
 		t0 := time.Now().Unix()
 		c := glow.CurrentTimeslot()
